@@ -22,7 +22,7 @@ class C08(Prop):
     lean_modules = ["NV.C08.Props"]
     theorems = ["NV.C08.world_inv_preserved", "NV.C08.reachable_inv", "NV.C08.lookup_unique_live",
                 "NV.C08.lookup_unique_live_reachable", "NV.C08.inventories_forest", "NV.C08.destructed_never_visible",
-                "NV.C08.destructed_never_called", "NV.C08.destructed_never_moved_into",
+                "NV.C08.destructed_never_called", "NV.C08.destructed_never_moved_into", "NV.C08.destructed_mover_never_linked", "NV.C08.present_returns_member",
                 "NV.C08.remove_hash_precondition", "NV.C08.remove_hash_absent_drops_chain", "NV.C08.unlink_preserves",
                 "NV.C08.no_dangling", "NV.C08.task_no_crash", "NV.C08.no_crash", "NV.C08.init_only_adjacent",
                 "NV.C08.command_giver_valid", "NV.C08.command_target_live", "NV.C08.destructed_drops_sentences",
@@ -140,6 +140,17 @@ class C08(Prop):
             t ld,b0\nt cl,b0\nt cl,b0\nt cl,b0\nt ld,b1\nt ec,o5\nt mv,o3,o2\nt mv,o4,o2\nt mv,o5,o2\nsnap\nt cmd,o5,va\nt cmd,o5,vb\nsnap
             t mv,o5,o2\nsnap\nt cmd,o5,va\nsnap\nt cmd,o5,va\nt cmd,o5,vc\nt dc,o5\nt cmd,o5,vb\nt ec,o5\nt aa,o2,vc\nt aa,o6,vc\nt cmd,o5,vc\nt de,o4\nt cmd,o5,vb\n""" + tail)
         mk("sentence-of-destructed-lingers", """t ld,b0\nt cl,b0\nt cl,b0\nt mv,o3,o2\nt mv,o4,o2\nt ec,o3\nt aa,o4,va\nsnap\nt dc,o3\nt de,o4\nsnap\nt ec,o3\nt cmd,o3,va\ngc\nt cmd,o3,va\nt de,o3\n""" + tail)
+        # f_move_object with a string destination: the destination is loaded first, then the mover is tested
+        mk("move-to-unloaded-room-whose-create-destructs-the-mover", "script o3 create de,o2\nt ld,b0\nt mvs,o2,b1\n" + tail + "\nt fo,b1\nt fis,b1\n" + tail)
+        mk("move-to-unloaded-room-variants", """script o4 create mv,o2,o3\nscript o5 create de,o5\nscript o6 create err\nscript o7 create mv,o7,o2
+            t ld,b0\nt cl,b0\nt ec,o2\nt mvs,o2,b1\nsnap\nprobe\nt mvs,o3,b2\nsnap\nt mvs,o3,b3\nsnap\nt mvs,o2,b4\nsnap\nt mvs,o3,b1\nt mvs,o2,b1
+            t mvs,o3,nx\nt mvs,o3,bad\nt mvs,o9,b1\nt mvs,o4,b0\nt fis,b1\nt fis,b9\nt fis,nx\n""" + tail)
+        mk("move-by-string-into-own-inventory", "t ld,b0\nt ld,b1\nt mvs,o3,b0\nt mvs,o2,b1\nt mvs,o2,b0\n" + tail)
+        # present(): id() hooks that move / destruct the object being asked, its neighbours, the environment
+        mk("present-id-moves-the-asked-object", """script o4 id mv,o4,o3\nt ld,b0\nt ld,b1\nt cl,b0\nt cl,b0\nt cl,b0\nt cl,b0
+            t mv,o5,o2\nt mv,o4,o2\nt mv,o6,o3\nt mv,o7,o3\nt pr,o2,o6\nt pr,o2,o5\nt pr,o3,o4\nt pr,o2,o9\n""" + tail)
+        mk("present-id-destructs", """script o4 id de,o5\nscript o4 id de,o4\nscript o6 id de,o2\nt ld,b0\nt cl,b0\nt cl,b0\nt cl,b0\nt cl,b0
+            t mv,o3,o2\nt mv,o5,o2\nt mv,o4,o2\nt mv,o6,o2\nt pr,o2,o3\nsnap\nt pr,o2,o3\nt pr,o2,o3\nt pr,o2,o3\n""" + tail)
         mk("references-read-zero", """t ld,b0\nt cl,b0\nt kp,o3\nt rd\nscript o3 create kp,o2;rd\nt de,o3\nt rd\nt kp,o3\nt mv,o3,o2\nt mv,o2,o3\nt ec,o3\nt ln,o3,x\nt de,o3\ngc\nt rd\n""" + tail)
         mk("reload-after-destruct", "t ld,b0\nt cl,b0\nt de,o2\nt fo,b0\nt ld,b0\nt fo,b0\nt cl,b0\nt fo,b0#1\nt fo,b0#2\ngc\nt de,o4\nt ld,b0\n" + tail)
         mk("find-moves-to-front", "t ld,b0\nt ld,b1\nt ld,b2\nt ld,b3\nt ld,b4\nt ld,b5\nt ld,b6\nt ld,b7\nsnap\nt fo,b0\nt fo,b3\nt fo,b5\nsnap\nt de,o4\nt de,o9\n" + tail)
@@ -152,9 +163,9 @@ class C08(Prop):
         return B
 
     OPS = [("ld", 9), ("cl", 14), ("mv", 28), ("de", 9), ("ec", 14), ("dc", 2), ("ln", 4), ("fo", 5), ("fl", 3),
-           ("kp", 3), ("rd", 2), ("err", 1), ("aa", 9), ("cmd", 8)]
+           ("kp", 3), ("rd", 2), ("err", 1), ("aa", 9), ("cmd", 8), ("mvs", 10), ("fis", 3), ("pr", 6)]
     HOPS = [("ld", 5), ("cl", 8), ("mv", 24), ("de", 14), ("ec", 5), ("dc", 1), ("ln", 2), ("fo", 2), ("fl", 1),
-            ("kp", 2), ("rd", 2), ("err", 2), ("mvarg", 6), ("nop", 2), ("aa", 10), ("cmd", 3)]
+            ("kp", 2), ("rd", 2), ("err", 2), ("mvarg", 6), ("nop", 2), ("aa", 10), ("cmd", 3), ("mvs", 6), ("fis", 2), ("pr", 2)]
 
     def gen_op(self, rng, st, table, self_id=None):
         k = rng.weighted(table)
@@ -175,6 +186,24 @@ class C08(Prop):
             return "%s,%s" % (k, b)
         if k == "mv":
             return "mv,%s,%s" % (oid(), oid())
+        if k == "mvs":
+            # string destination: an already loaded blueprint, or (half of the time) one that the move has to load;
+            # its create() then often destructs / moves the mover or itself (scripts are registered by the caller)
+            b = rng.weighted([("b%d" % rng.below(st["nbp"]), 12), ("b%d" % (st["nbp"] + rng.below(40)), 12), ("nx", 1), ("bad", 1)])
+            mover = oid()
+            if table is self.OPS and rng.chance(2, 3):
+                nid = st["top"] + 1 + rng.below(2)
+                what = rng.weighted([("de,%s" % mover, 5), ("de,o%d" % nid, 2), ("mv,%s,%s" % (mover, oid()), 3),
+                                     ("mv,o%d,%s" % (nid, mover), 2), ("de,%s" % oid(), 1), ("err", 1)])
+                st.setdefault("extra_scripts", []).append("script o%d create %s" % (nid, what))
+            st["est"] += 1
+            if table is self.OPS:
+                st["top"] += 1 if rng.chance(1, 2) else 0
+            return "mvs,%s,%s" % (mover, b)
+        if k == "pr":
+            return "pr,%s,%s" % (oid(), oid())
+        if k == "fis":
+            return "fis,%s" % rng.weighted([("b%d" % rng.below(st["nbp"]), 6), ("b%d" % (st["nbp"] + rng.below(40)), 6), ("nx", 1)])
         if k in ("de", "ec", "dc", "kp"):
             return "%s,%s" % (k, oid())
         if k == "aa":
@@ -221,7 +250,7 @@ class C08(Prop):
             # scripts for hooks that may fire during this step
             while nscripts < 14 and rng.chance(2, 5):
                 nscripts += 1
-                hk = rng.weighted([("create", 3), ("init", 6), ("mod", 5), ("act", 3)])
+                hk = rng.weighted([("create", 3), ("init", 6), ("mod", 5), ("act", 3), ("id", 4)])
                 if hk == "create":
                     target = st["est"] + 1 + rng.below(2)
                 else:
@@ -237,6 +266,19 @@ class C08(Prop):
                 if rng.chance(1, 2):
                     body.append("t " + self.gen_op(rng, st, self.OPS))
                 body.append("t cmd,o%d,%s" % (x, v))
+            elif rng.chance(1, 10) and st["top"] >= 4:
+                # present(): fill a room, let an id() hook interfere, ask for a member
+                e = rng.range(2, st["top"] + 1)
+                xs = [rng.range(2, st["top"] + 1) for _ in range(rng.range(2, 4))]
+                body += ["t mv,o%d,o%d" % (x, e) for x in xs]
+                if rng.chance(2, 3):
+                    y = rng.choice(xs)
+                    what = rng.weighted([("mv,o%d,o%d" % (y, rng.range(2, st["top"] + 1)), 5), ("de,o%d" % rng.choice(xs), 2),
+                                         ("de,o%d" % e, 1), ("mv,o%d,o%d" % (rng.choice(xs), rng.range(2, st["top"] + 1)), 2)])
+                    st.setdefault("extra_scripts", []).append("script o%d id %s" % (y, what))
+                body.append("t pr,o%d,o%d" % (e, rng.choice(xs)))
+                if rng.chance(1, 2):
+                    body.append("t pr,o%d,o%d" % (e, rng.choice(xs)))
             elif rng.chance(1, 12):
                 body.append("gc")
             else:
@@ -251,6 +293,7 @@ class C08(Prop):
             elif rng.chance(1, 6):
                 body += ["snap", "probe"]
         body += ["snap", "probe", "gc", "snap", "probe"]
+        body += st.get("extra_scripts", [])
         return E.Case(cid, scripts_first(body), {"origin": "generated"})
 
     def generate(self, rng, n, tier):
@@ -262,7 +305,7 @@ class C08(Prop):
 
     def histogram(self, cases, impl):
         h = {"objects_created": 0, "moves_ok": 0, "moves_refused": 0, "destructs": 0, "hooks_create": 0, "hooks_init": 0,
-             "hooks_mod": 0, "hooks_act": 0, "commands_hit": 0, "commands_miss": 0, "add_actions": 0, "errors": 0, "gone_reads": 0, "snapshots": 0, "probes": 0, "max_population": 0, "scripts": 0}
+             "hooks_mod": 0, "hooks_act": 0, "hooks_id": 0, "present_hit": 0, "present_miss": 0, "commands_hit": 0, "commands_miss": 0, "add_actions": 0, "errors": 0, "gone_reads": 0, "snapshots": 0, "probes": 0, "max_population": 0, "scripts": 0}
         for c in cases:
             pop = 0
             for l in impl.get(c.id, []):
@@ -277,6 +320,8 @@ class C08(Prop):
                     h["hooks_" + t[2]] += 1
                 elif t[0] == "err":
                     h["errors"] += 1
+                    if "destructed object" in l:
+                        h["moves_of_destructed_refused"] = h.get("moves_of_destructed_refused", 0) + 1
                     if "inside itself" in l:
                         h["moves_refused"] += 1
                 elif t[0] == "r" and len(t) > 1:
@@ -284,6 +329,10 @@ class C08(Prop):
                         h["moves_ok"] += 1
                     elif t[1] == "de" and t[-1] == "ok":
                         h["destructs"] += 1
+                    elif t[1] == "pr" and len(t) == 5 and t[-1] != "!gone":
+                        h["present_hit" if t[-1].startswith("o") else "present_miss"] += 1
+                    elif t[1] == "mvs" and len(t) > 5 and t[4] == "ok":
+                        h["string_moves_ok"] = h.get("string_moves_ok", 0) + 1
                     elif t[1] == "cmd" and t[-1] in ("0", "1"):
                         h["commands_hit" if t[-1] == "1" else "commands_miss"] += 1
                     elif t[1] == "aa" and t[-1] == "ok":
